@@ -58,6 +58,12 @@ func verifUpper(s string) string {
 
 // verifRefLex returns the token stream (ending with <eof>) or ok=false.
 func verifRefLex(x string) (toks []verifRTok, ok bool) {
+	toks, _, ok = verifRefLexC(x)
+	return
+}
+
+// verifRefLexC also returns the ranges of all comments.
+func verifRefLexC(x string) (toks []verifRTok, comments []verifRTok, ok bool) {
 	n := len(x)
 	pos := 0
 	prev, prev2 := "", "" // kinds of the previous two tokens
@@ -71,12 +77,14 @@ func verifRefLex(x string) (toks []verifRTok, ok bool) {
 			}
 			c := x[pos]
 			if c == '#' || c == '-' && pos+1 < n && x[pos+1] == '-' || c == '/' && pos+1 < n && x[pos+1] == '/' {
+				cs := pos
 				for pos < n && x[pos] != '\n' {
 					pos++
 				}
 				if pos < n {
 					pos++
 				}
+				comments = append(comments, verifRTok{"comment", cs, pos, ""})
 				continue
 			}
 			if c == '/' && pos+1 < n && x[pos+1] == '*' {
@@ -90,8 +98,9 @@ func verifRefLex(x string) (toks []verifRTok, ok bool) {
 					j++
 				}
 				if !closed {
-					return nil, false
+					return nil, nil, false
 				}
+				comments = append(comments, verifRTok{"comment", pos, j + 2, ""})
 				pos = j + 2
 				continue
 			}
@@ -99,7 +108,7 @@ func verifRefLex(x string) (toks []verifRTok, ok bool) {
 		}
 		if pos >= n {
 			toks = append(toks, verifRTok{"<eof>", pos, pos, ""})
-			return toks, true
+			return toks, comments, true
 		}
 		start := pos
 		c := x[pos]
@@ -116,25 +125,25 @@ func verifRefLex(x string) (toks []verifRTok, ok bool) {
 		case c == '.' && pos+1 < n && verifIsDigitB(x[pos+1]) && !(prev == "<ident>" || prev == "<param>" || prev == ")" || prev == "]"):
 			e, good := verifRefNumber(x, pos)
 			if !good {
-				return nil, false
+				return nil, nil, false
 			}
 			t = e
 		case verifIsDigitB(c):
 			e, good := verifRefNumber(x, pos)
 			if !good {
-				return nil, false
+				return nil, nil, false
 			}
 			t = e
 		case c == '`':
 			v, end, good := verifRefQuoted(x, pos, "`", false, false)
 			if !good || len(v) == 0 {
-				return nil, false
+				return nil, nil, false
 			}
 			t = verifRTok{"<ident>", pos, end, v}
 		case c == '"' || c == '\'':
 			e, good := verifRefString(x, pos, pos, false, false)
 			if !good {
-				return nil, false
+				return nil, nil, false
 			}
 			t = e
 		case c == '@':
@@ -154,7 +163,7 @@ func verifRefLex(x string) (toks []verifRTok, ok bool) {
 			if q, raw, bytes, good := verifRefPrefix(x, pos); good {
 				e, good2 := verifRefString(x, pos, q, raw, bytes)
 				if !good2 {
-					return nil, false
+					return nil, nil, false
 				}
 				t = e
 				break
@@ -173,18 +182,18 @@ func verifRefLex(x string) (toks []verifRTok, ok bool) {
 		default:
 			k := verifRefPunct(x, pos)
 			if k == "" {
-				return nil, false
+				return nil, nil, false
 			}
 			t = verifRTok{k, pos, pos + len(k), ""}
 		}
 		if t.end <= start {
-			return nil, false
+			return nil, nil, false
 		}
 		toks = append(toks, t)
 		pos = t.end
 		prev2, prev = prev, t.kind
 	}
-	return nil, false
+	return nil, nil, false
 }
 
 var verifPuncts = []string{
@@ -396,6 +405,27 @@ func verifHarness_C14_lit(k, prefix, quote int) {
 	x := pre + q + verifBytes(k) + q
 	if verifBool() {
 		x += " a"
+	}
+	verifC14(x)
+}
+
+// unicode escape templates: \\uHHHH with four arbitrary bytes, \\U00HHHHHH with six,
+// in a string literal (form 0, 1), a quoted identifier (2) or a bytes literal (3, must be rejected)
+func verifHarness_C14_uni(form, long int) {
+	open, close := "\"", "\""
+	switch form {
+	case 1:
+		open, close = "'''", "'''"
+	case 2:
+		open, close = "`", "`"
+	case 3:
+		open, close = "b'", "'"
+	}
+	var x string
+	if long == 1 {
+		x = open + "\\U00" + verifBytes(6) + close
+	} else {
+		x = open + "a\\u" + verifBytes(4) + close
 	}
 	verifC14(x)
 }
